@@ -490,6 +490,16 @@ class SymbolicAtomizer:
             return ("set", s if isinstance(op, ast.In) else s.complement())
         o = _OPS.get(type(op))
         if o is not None:
+            # subject +/- k  OP  const   ==>   subject OP const -/+ k
+            for a, b, flip in ((l, r, False), (r, l, True)):
+                if isinstance(a, ast.BinOp) and isinstance(a.op, (ast.Add, ast.Sub)) and self.is_subject(a.left):
+                    from .df import const_int as _ci
+                    k = _ci(a.right)
+                    c = self.const(b)
+                    if k is not None and c is not None:
+                        k = k if isinstance(a.op, ast.Add) else -k
+                        t, v = self.pt(c)
+                        return ("set", IntSet.cmp(_FLIP[o] if flip else o, (t, v - k)))
             if self.is_subject(l):
                 c = self.const(r)
                 if c is not None:
